@@ -68,6 +68,7 @@ class Task:
         self.name = f'{c.key}' + (f'@{c.which}' if c.which else '') + (f'#{c.tag}' if getattr(c, 'tag', None) else '') \
             + (f'[{label}]' if label else '')
         self.ctx = Ctx(self.name)
+        self.ctx.div_bounds = 'div-bounds' in getattr(c, 'hints', ())
         cs = contracts_by_key()
         ns = dict(SPEC_NS)
         try:
